@@ -27,3 +27,4 @@ def run(ctx, rep, tier):
         steplen.composite_order(rep, F, tag, 'C15.R2')
         steplen.soc_dead_panic(rep, F, tag, 'C15.R3')
         steplen.backtrack_pairing(rep, F, tag, 'C15.R4')
+        steplen.interior_shift(rep, F, tag, 'C15.R5')
